@@ -225,6 +225,10 @@ struct Sess {
     tmp: Option<std::path::PathBuf>,
 }
 
+/// FNV-64 of every object datagram of the current session, whole datagram (header, extensions, payload id, payload -
+/// repair payloads included): compared pairwise between sources by the C20 oracle, never with the model
+pub static RAW: std::sync::Mutex<Vec<u64>> = std::sync::Mutex::new(Vec::new());
+
 pub struct BencEngine {
     s: Option<Sess>,
     workdir: std::path::PathBuf,
@@ -288,6 +292,7 @@ impl BencEngine {
 
     fn op_new(&mut self, t: &[&str]) -> String {
         self.drop_sess();
+        RAW.lock().unwrap().clear();
         if t.len() != 12 {
             return "bad-op".into();
         }
@@ -339,41 +344,86 @@ impl BencEngine {
             ..Default::default()
         };
         let url = url::Url::parse("file:///obj").unwrap();
-        let src = t[9];
+        // source spec: <base>[@pre<N>|@post<N>]  - the stream is positioned at byte N before the object is created
+        // (`pre`, MD5 off: nothing rewinds it) or between object creation and the first transfer (`post`)
+        let (src, prepos, postpos): (&str, Option<u64>, Option<u64>) = match t[9].split_once('@') {
+            None => (t[9], None, None),
+            Some((b, sfx)) => {
+                if let Some(n) = sfx.strip_prefix("pre").and_then(|x| x.parse().ok()) {
+                    (b, Some(n), None)
+                } else if let Some(n) = sfx.strip_prefix("post").and_then(|x| x.parse().ok()) {
+                    (b, None, Some(n))
+                } else {
+                    return "bad-op".into();
+                }
+            }
+        };
         let mut tmp = None;
         let obj2 = obj.clone();
+        let md5 = prepos.is_none();
+        let mk_file = |this: &mut BencEngine| -> std::path::PathBuf {
+            std::fs::create_dir_all(&this.workdir).ok();
+            this.nfile += 1;
+            let path = this.workdir.join(format!("obj-{}.bin", this.nfile));
+            std::fs::write(&path, &obj).unwrap();
+            path
+        };
         let desc = match src {
-            "buf" => guarded(AssertUnwindSafe(|| ObjectDesc::create_from_buffer(obj2, "application/octet-stream", &url, true, tc))),
-            "cur" => guarded(AssertUnwindSafe(|| {
-                ObjectDesc::create_from_stream(Box::new(std::io::Cursor::new(obj2)), "application/octet-stream", &url, true, tc)
-            })),
-            "file" | "bufrd" => {
-                std::fs::create_dir_all(&self.workdir).ok();
-                self.nfile += 1;
-                let path = self.workdir.join(format!("obj-{}.bin", self.nfile));
-                std::fs::write(&path, &obj).unwrap();
+            "buf" => {
+                if prepos.is_some() || postpos.is_some() {
+                    return "bad-op".into();
+                }
+                guarded(AssertUnwindSafe(|| ObjectDesc::create_from_buffer(obj2, "application/octet-stream", &url, true, tc)))
+            }
+            "ffile-ram" | "ffile-stream" => {
+                // the public file entry point
+                if prepos.is_some() || postpos.is_some() {
+                    return "bad-op".into();
+                }
+                let path = mk_file(self);
                 tmp = Some(path.clone());
-                let bufrd = src == "bufrd";
-                guarded(AssertUnwindSafe(move || {
-                    let f = std::fs::File::open(&path).unwrap();
-                    if bufrd {
-                        ObjectDesc::create_from_stream(Box::new(std::io::BufReader::new(f)), "application/octet-stream", &url, true, tc)
-                    } else {
-                        ObjectDesc::create_from_stream(Box::new(f), "application/octet-stream", &url, true, tc)
+                let ram = src == "ffile-ram";
+                guarded(AssertUnwindSafe(move || ObjectDesc::create_from_file(&path, Some(&url), "application/octet-stream", ram, true, tc)))
+            }
+            _ => {
+                let stream: flute::sender::ObjectDataStream = match src {
+                    "cur" => Box::new(std::io::Cursor::new(obj2)),
+                    "file" | "bufrd" => {
+                        let path = mk_file(self);
+                        tmp = Some(path.clone());
+                        let f = std::fs::File::open(&path).unwrap();
+                        if src == "bufrd" {
+                            Box::new(std::io::BufReader::new(f))
+                        } else {
+                            Box::new(f)
+                        }
                     }
-                }))
-            }
-            s if s.starts_with("chk:") => {
-                let sched = match parse_sched(&s[4..]) {
-                    Some(x) => x,
-                    None => return "bad-op".into(),
+                    s if s.starts_with("chk:") => match parse_sched(&s[4..]) {
+                        Some(x) => Box::new(Chunked::new(obj2, x)),
+                        None => return "bad-op".into(),
+                    },
+                    _ => return "bad-op".into(),
                 };
-                // no MD5 here: computing it would consume schedule entries the model does not see
-                guarded(AssertUnwindSafe(|| {
-                    ObjectDesc::create_from_stream(Box::new(Chunked::new(obj2, sched)), "application/octet-stream", &url, false, tc)
-                }))
+                let mut stream = stream;
+                if let Some(n) = prepos {
+                    stream.seek(SeekFrom::Start(n)).ok();
+                }
+                // no MD5 for the chunked reader (it would consume schedule entries the model does not see) nor for a
+                // pre-positioned stream (it would rewind it)
+                let md5 = md5 && !src.starts_with("chk:");
+                guarded(AssertUnwindSafe(move || ObjectDesc::create_from_stream(stream, "application/octet-stream", &url, md5, tc)))
             }
-            _ => return "bad-op".into(),
+        };
+        let desc = match desc {
+            Ok(Ok(d)) => {
+                if let Some(n) = postpos {
+                    if let flute::sender::ObjectDataSource::Stream(m) = &d.source {
+                        m.lock().unwrap().seek(SeekFrom::Start(n)).ok();
+                    }
+                }
+                Ok(Ok(d))
+            }
+            x => x,
         };
         let desc = match desc {
             Err(_) => return "PANIC".into(),
@@ -395,7 +445,7 @@ impl BencEngine {
                 None => return "bad-op".into(),
             }
         };
-        if src == "buf" && cenc != Cenc::Null {
+        if (src == "buf" || src == "ffile-ram") && cenc != Cenc::Null {
             // the op must carry what flute's public compressor yields for this object
             match flute::sender::compress::compress_buffer(&obj, cenc) {
                 Ok(v) if v == te => {}
@@ -473,6 +523,7 @@ impl BencEngine {
                 o.fail("foreign-toi", &format!("packet of unknown TOI {} / TSI {}", dec.toi, dec.tsi));
                 continue;
             }
+            RAW.lock().unwrap().push(fnv64(&d));
             let ob = Obs { sbn: dec.sbn, esi: dec.esi, payload: dec.payload, a: dec.close_session, b: dec.close_object, after_remove: s.removed, sbl: dec.sbl };
             s.trace.push(ob.clone());
             return Ok(Some(ob));
@@ -605,7 +656,7 @@ fn oracle(s: &Sess, o: &mut Oracle) {
     if s.dead {
         // D23 (finding): raptor_code refuses blocks of 2 or 3 source symbols
         let raptor_small = s.scheme == "raptor" && (0..part.n).any(|sbn| part.k(sbn) == 2 || part.k(sbn) == 3);
-        let cls = if raptor_small { "raptor-k<4" } else { "sender-panic" };
+        let cls = if s.win == 0 { "interleave-blocks-0" } else if raptor_small { "raptor-k<4" } else { "sender-panic" };
         o.fail(cls, &format!("Sender::read panicked {}", ctxs));
         return;
     }
@@ -899,6 +950,14 @@ pub fn run(ctx: &mut Ctx, eng: &mut dyn Engine) {
     one_case(ctx, eng, "w-d25", &Cfg { scheme: "rs28us", e: 1, b: 252, p: 5, win: 1, len: 252, ..base.clone() }, "witness");
     one_case(ctx, eng, "w-d18", &Cfg { scheme: "nocode", p: 0, cenc: "gzip", src: "cur".into(), len: 50, ..base.clone() }, "witness");
     one_case(ctx, eng, "w-d22", &Cfg { scheme: "raptor", b: 8, len: 21, ..base.clone() }, "witness");
+    // interleave_blocks = 0 (no block is ever opened; also hits the FDT's own encoder) and max_transfer_count = 0
+    for (i, scheme) in ["nocode", "rs28", "raptorq"].iter().enumerate() {
+        one_case(ctx, eng, &format!("w-win0-{}", i), &Cfg { scheme, win: 0, ..base.clone() }, "window0");
+        one_case(ctx, eng, &format!("w-win0-empty-{}", i), &Cfg { scheme, win: 0, len: 0, ..base.clone() }, "window0");
+        one_case(ctx, eng, &format!("w-win0-stream-{}", i), &Cfg { scheme, win: 0, src: "chk:f3".into(), ..base.clone() }, "window0");
+        one_case(ctx, eng, &format!("w-maxtc0-{}", i), &Cfg { scheme, maxtc: 0, ..base.clone() }, "maxtc0");
+        one_case(ctx, eng, &format!("w-maxtc0-car-{}", i), &Cfg { scheme, maxtc: 0, car: true, src: "cur".into(), ..base.clone() }, "maxtc0");
+    }
     one_case(ctx, eng, "w-d23", &Cfg { scheme: "raptor", len: 20, ..base.clone() }, "witness");
 
     // 0b. field-width boundaries: many blocks (SBN >= 256), long blocks (ESI >= 256), widest RS blocks, largest symbols,
@@ -965,7 +1024,7 @@ pub fn run(ctx: &mut Ctx, eng: &mut dyn Engine) {
 
     // 2. removal at every packet index of small objects -------------------------------------------------
     let mut rn = 0u64;
-    for scheme in ["nocode", "rs28", "raptorq"] {
+    for scheme in ["nocode", "rs28", "raptorq", "rs28us"] {
         for (e, b, p, len) in [(4u64, 3u64, 2u64, 20u64), (2, 2, 1, 7), (3, 5, 1, 16), (1, 1, 1, 3), (4, 3, 2, 0), (4, 2, 5, 9)] {
             for win in [1u64, 2, 3] {
                 for maxtc in [1u64, 2, 3] {
@@ -977,7 +1036,8 @@ pub fn run(ctx: &mut Ctx, eng: &mut dyn Engine) {
                             if !thorough && rng.below(3) != 0 {
                                 continue;
                             }
-                            let c = Cfg { scheme, e, b, p, win, maxtc, allow, car, cenc: "null", src: "buf".into(), seed: 7, len };
+                            let rsrc: String = match rn % 4 { 0 => "chk:f1".into(), 1 => "cur".into(), _ => "buf".into() };
+                            let c = Cfg { scheme, e, b, p, win, maxtc, allow, car, cenc: "null", src: rsrc, seed: 7, len };
                             // how many packets without removal?
                             rn += 1;
                             let total = count_pkts(&one_case(ctx, eng, &format!("rm-base-{}", rn), &c, "removal-base"));
@@ -1064,7 +1124,7 @@ pub fn run(ctx: &mut Ctx, eng: &mut dyn Engine) {
     let mut sn = 0u64;
     let nsrc = if thorough { 600 } else { 120 };
     for i in 0..nsrc {
-        let scheme = *rng.pick(&["nocode", "nocode", "rs28", "rs28us", "raptorq"]);
+        let scheme = *rng.pick(&["nocode", "nocode", "rs28", "rs28us", "raptorq", "raptor"]);
         let e = *rng.pick(&[1u64, 2, 3, 4, 16, 1400]);
         let b = *rng.pick(&[1u64, 2, 3, 4, 5, 64]);
         let p = *rng.pick(&[1u64, 2, 5]);
@@ -1077,13 +1137,22 @@ pub fn run(ctx: &mut Ctx, eng: &mut dyn Engine) {
         }
         // fixed 1-byte reads on very large objects are slow for the model's schedule list: bound the object
         let small = len <= 6000;
-        let mut srcs: Vec<String> = vec!["buf".into(), "cur".into(), "file".into(), "bufrd".into(), "chk:f7".into()];
+        let mut srcs: Vec<String> = vec!["buf".into(), "cur".into(), "file".into(), "bufrd".into(), "chk:f7".into(), "ffile-ram".into(), "ffile-stream".into()];
+        // streams handed over partly read (before creation, MD5 off) or moved between creation and the first transfer
+        let k1 = rng.range(1, len.max(1));
+        let k2 = rng.range(0, len + 3);
+        srcs.push(format!("cur@pre{}", k1));
+        srcs.push(format!("file@pre{}", k2));
+        srcs.push(format!("bufrd@post{}", k1));
+        srcs.push(format!("cur@post{}", k2));
         if small {
             srcs.push("chk:f1".into());
             srcs.push("chk:f3".into());
             srcs.push(format!("chk:r{}.{}", rng.below(1 << 30), *rng.pick(&[2u64, 5, 17, 100, 5000])));
             srcs.push(format!("chk:r{}.{}", rng.below(1 << 30), (e * b).max(2)));
             srcs.push(format!("chk:l{}.{}.{}.1", rng.range(1, 9), rng.range(1, 9), rng.range(1, 40)));
+            srcs.push(format!("chk:f3@pre{}", k1));
+            srcs.push(format!("chk:r{}.{}@post{}", rng.below(1 << 30), 9, k1));
         } else {
             srcs.retain(|x| x != "chk:f7");
             srcs.push(format!("chk:f{}", (e * b - 1).max(len / 40)));
@@ -1091,6 +1160,7 @@ pub fn run(ctx: &mut Ctx, eng: &mut dyn Engine) {
             srcs.push(format!("chk:l{}.{}.{}.1.{}", rng.range(1, 9), rng.range(1, 9000), rng.range(1, 40), rng.range(1, 100000)));
         }
         let mut reference: Option<String> = None;
+        let mut reference_raw: Option<Vec<u64>> = None;
         for src in srcs {
             sn += 1;
             let c = Cfg { scheme, e, b, p, win, maxtc, allow: false, car: false, cenc: "null", src: src.clone(), seed: 1000 + i, len };
@@ -1098,6 +1168,24 @@ pub fn run(ctx: &mut Ctx, eng: &mut dyn Engine) {
             let part = Part::new(len, e, b);
             if src.starts_with("chk:") && part.n >= 2 {
                 ctx.nontrivial(&c.key());
+            }
+            let raw = RAW.lock().unwrap().clone();
+            match &reference_raw {
+                None => reference_raw = Some(raw),
+                Some(r) => {
+                    if *r != raw && reference.as_ref() == Some(&out) {
+                        // same projection but the datagrams differ somewhere else (repair payloads, extensions, lengths)
+                        ctx.case(&format!("src-{}-raw-vs-buffer", sn));
+                        eng.reset();
+                        ctx.step(eng, &c.op());
+                        ctx.step(eng, "benc readall");
+                        ctx.oracle_fail(
+                            "C20:stream-ne-buffer-raw",
+                            &format!("datagrams (whole, FNV-64 each) from source `{}` differ from the buffer source for the same bytes although (SBN, ESI, source payload, flags) agree: {}", src, c.op()),
+                        );
+                        eng.reset();
+                    }
+                }
             }
             match &reference {
                 None => reference = Some(out),
